@@ -2,6 +2,7 @@ import PycModel.Proofs.StreamLemmas
 import PycModel.Proofs.LexerTotal
 import PycModel.Proofs.StreamRel
 import PycModel.Proofs.ParenExpr
+import PycModel.Proofs.StmtSkel
 import PycModel.Proofs.RegexCost
 import PycModel.Generated.LexTables
 /-!
@@ -63,6 +64,19 @@ theorem expression_fuel_linear (e : E) (m : Nat) (s : PState) (stop : Tk) (rest 
     (hs : SeesT s (e.flat ++ stop :: rest)) :
     ∃ s', run (9 * e.ntoks) (.binaryExpression m none) s = .ok (e.val s.idx) s' :=
   let ⟨s', h, _⟩ := (parse_ok e).1 m s stop rest hwf hstop1 hstop2 hs (9 * e.ntoks) (fuel_linear e)
+  ⟨s', h⟩
+
+open PycModel.FullExpr PycModel.StmtSkel PycModel.View in
+/-- **Linear recursion budget for statements and full expressions.** For every statement of the
+fragment of `Proofs/StmtSkel.lean` - blocks of any length, `if`/`else`/`while`/`do`/`switch` nested to
+any depth, expressions with every operator, call and subscript of `Proofs/FullExpr.lean` repeated and
+nested to any size - fuel `13 * (number of tokens)` suffices for the parser model to finish with the
+right tree. -/
+theorem statement_fuel_linear (st : S) (hwf : WFS st) (s : PState) (rest : List Tk)
+    (hs : SeesT s (st.flat ++ rest))
+    (hel : st.openIf = true → ∀ k v r, rest = (k, v) :: r → k ≠ "ELSE") :
+    ∃ s', run (13 * st.ntoks) .statement s = .ok (st.val s.idx) s' :=
+  let ⟨s', h, _⟩ := parse_stmt st hwf s rest hs hel (13 * st.ntoks) (by have := S.fuel_linear st; omega)
   ⟨s', h⟩
 
 open PycModel.Climb in
